@@ -18,8 +18,11 @@ RULE = ("lattice: n x objective {sepquad, coupquad, recip, linear} x constraint 
         "(m=1,1,2,2) x start {lower, mid, upper, mixed} x variable split {one_array, array_scalar, scalars, two_arrays} "
         "x bounds kind x move kind {scalar, persignal, pervar} x MMA version {1987, 2007} x asymptote setting; one "
         "case = one complete minimize_mma run (maxit 60, tolx 1e-7), every iteration is a state at which all "
-        "invariants are evaluated. A run is non-trivial if it has >= 3 iterations and starts farther than 1e-3 "
-        "(normalised) from the reference optimum; distinct by the full descriptor")
+        "invariants are evaluated. Family members whose optimum has a free variable with stationary objective "
+        "('unbalanced': MMA 2-cycles there and the inner Newton solver runs into its cap, seconds per call) are run on "
+        "the declared sub-lattice only and are cut off after the first sub-problem call that reports the cap. A run "
+        "is non-trivial if it has >= 3 iterations and starts farther than 1e-3 (normalised) from the reference "
+        "optimum; distinct by the full descriptor")
 ASSUMPTIONS = [
     "value tables are fixed 'generic' numbers (fractional parts of scaled square roots of primes); boxes have lo > 0",
     "reference optimum = SLSQP start + active-set Newton polish, trusted only after the KKT conditions of the "
@@ -32,7 +35,12 @@ ASSUMPTIONS = [
     "bound/move vectors are given as numpy arrays (python lists as per-variable vectors are outside the alphabet)",
     "a length-1 array signal coming back as a 0-d value is recorded as observed_only (values are judged, shape not)",
     "convergence is judged in bounded-horizon form: final design within 1e-3 (normalised by xmax-xmin) of the "
-    "reference optimum and max constraint <= 1e-6 after at most 60 iterations",
+    "reference optimum and max constraint <= 1e-6 after at most 60 iterations, and only for 'balanced' optima "
+    "(every free variable is held by an active constraint against a non-zero objective gradient): MMA's "
+    "approximations are monotone in each variable, so an optimum that is stationary for the objective alone is only "
+    "approached up to the smallest asymptote interval (observed 2-cycle, reported as observed_only, never judged)",
+    "a run is cut off (cost guard) after the first sub-problem call that hits subsolv's Newton cap, fails the KKT "
+    "bound, or needs more than 40000 residual evaluations; all iterations up to that call are judged",
 ]
 
 MAXIT = 60
@@ -55,42 +63,68 @@ def _kkt_or_none(arg, ret):
     return R.subproblem_kkt(arg, ret) if ok else None
 
 
-def bounds(tier, seed):
+ROT_PAIRS = [(k, R.KINDS[(i + 1) % 3]) for i, k in enumerate(R.KINDS)]
+DIAG_PAIRS = [(k, k) for k in R.KINDS]
+ALL_PAIRS = list(itertools.product(R.KINDS, R.KINDS))
+
+
+def _lattice(tier):
+    """(levels, main lattice, sub-lattice for 'unbalanced' family members)."""
     if tier == 'quick':
-        return {'n': [1, 2, 3, 5], 'objectives': R.OBJECTIVES, 'constraints': R.CONSTRAINTS,
-                'starts': ['lower', 'mixed'], 'splits': R.SPLITS, 'bounds_kinds': R.KINDS, 'move_kinds': R.KINDS,
-                'kind_pairs': 'all 9 for n<=2; n>=3: bounds kind == move kind rotated (3 pairs)',
-                'versions': R.VERSIONS, 'asy': ['default'], 'maxit': MAXIT, 'tolx': TOLX,
-                'table': seed % R.NTABLES}
-    return {'n': [1, 2, 3, 5, 8], 'objectives': R.OBJECTIVES, 'constraints': R.CONSTRAINTS, 'starts': R.STARTS,
-            'splits': R.SPLITS, 'bounds_kinds': R.KINDS, 'move_kinds': R.KINDS, 'kind_pairs': 'all 9',
-            'versions': R.VERSIONS, 'asy': sorted(R.ASY), 'maxit': MAXIT, 'tolx': TOLX, 'table': seed % R.NTABLES,
-            'levels': ['n<=2', 'n=3', 'n=5', 'n=8']}
+        main = dict(starts=['lower', 'mixed'], splits=R.SPLITS, asy=['default'], versions=R.VERSIONS,
+                    pairs={1: ROT_PAIRS, 2: ROT_PAIRS, 3: ROT_PAIRS + DIAG_PAIRS, 5: ROT_PAIRS})
+        sub = dict(starts=['mixed'], splits=['one_array'], asy=['default'], versions=R.VERSIONS,
+                   pairs={n: [('pervar', 'pervar')] for n in (1, 2, 3, 5)})
+        return [('all', [1, 2, 3, 5])], main, sub
+    main = dict(starts=R.STARTS, splits=R.SPLITS, asy=sorted(R.ASY), versions=R.VERSIONS,
+                pairs={n: ALL_PAIRS for n in (1, 2, 3, 5, 8)})
+    sub = dict(starts=['lower', 'mixed'], splits=R.SPLITS, asy=sorted(R.ASY), versions=R.VERSIONS,
+               pairs={n: DIAG_PAIRS for n in (1, 2, 3, 5, 8)})
+    return [('n<=2', [1, 2]), ('n=3', [3]), ('n=5', [5]), ('n=8', [8])], main, sub
 
 
-def _runs(ns, starts, asys, table, pairs_for):
-    for n in ns:
-        for split in R.SPLITS:
-            if R.split_sizes(n, split) is None:
-                continue
-            for obj, cons in itertools.product(R.OBJECTIVES, R.CONSTRAINTS):
-                for bk, mk in pairs_for(n):
-                    for start, ver, asy in itertools.product(starts, R.VERSIONS, asys):
-                        yield {'n': n, 'split': split, 'obj': obj, 'cons': cons, 'bounds': bk, 'move': mk,
-                               'start': start, 'version': ver, 'asy': asy, 'table': table}
+def bounds(tier, seed):
+    levels, main, sub = _lattice(tier)
+    fmt = lambda d: {k: ({str(n): ['/'.join(p) for p in v] for n, v in d[k].items()} if k == 'pairs' else d[k])
+                     for k in d}
+    return {'n': [n for _, ns in levels for n in ns], 'levels': [nm for nm, _ in levels],
+            'objectives': R.OBJECTIVES, 'constraints': R.CONSTRAINTS, 'maxit': MAXIT, 'tolx': TOLX,
+            'table': seed % R.NTABLES, 'main_lattice (pairs = bounds kind/move kind per n)': fmt(main),
+            'sublattice_for_unbalanced_members': fmt(sub)}
+
+
+_UNBAL = {}
+
+
+def _expected_unbalanced(n, obj, cons, table):
+    """Generation-time classification only (thins the lattice, never a verdict): in normalised coordinates the
+    quadratic/linear members do not depend on the box, 'recip' always has a non-zero objective gradient."""
+    if obj == 'recip':
+        return False
+    key = (n, obj, cons, table)
+    if key not in _UNBAL:
+        _, _, lo, hi = R.bounds_spec(n, [n], 'scalar', table)
+        ref = R.reference_optimum(R.Problem(n, obj, cons, lo, hi, table))
+        _UNBAL[key] = bool(ref is None or not ref['balanced'])
+    return _UNBAL[key]
 
 
 def generate(tier, seed):
     table = seed % R.NTABLES
-    allpairs = list(itertools.product(R.KINDS, R.KINDS))
-    if tier == 'quick':
-        rot = [(k, R.KINDS[(i + 1) % 3]) for i, k in enumerate(R.KINDS)]
-        yield from _runs([1, 2, 3, 5], ['lower', 'mixed'], ['default'], table,
-                         lambda n: allpairs if n <= 2 else rot)
-        return
-    for name, ns in (('n<=2', [1, 2]), ('n=3', [3]), ('n=5', [5]), ('n=8', [8])):
-        yield {'__level__': name}
-        yield from _runs(ns, R.STARTS, sorted(R.ASY), table, lambda n: allpairs)
+    levels, main, sub = _lattice(tier)
+    for name, ns in levels:
+        if len(levels) > 1:
+            yield {'__level__': name}
+        for n in ns:
+            for obj, cons in itertools.product(R.OBJECTIVES, R.CONSTRAINTS):
+                lat = sub if _expected_unbalanced(n, obj, cons, table) else main
+                for split in lat['splits']:
+                    if R.split_sizes(n, split) is None:
+                        continue
+                    for (bk, mk), start, ver, asy in itertools.product(lat['pairs'][n], lat['starts'],
+                                                                     lat['versions'], lat['asy']):
+                        yield {'n': n, 'split': split, 'obj': obj, 'cons': cons, 'bounds': bk, 'move': mk,
+                               'start': start, 'version': ver, 'asy': asy, 'table': table}
 
 
 # ------------------------------------------------------------------------------------------------- execution
